@@ -278,11 +278,12 @@ mod proofs {
         let r = t.handle_char(c, ByteIndex(idx));
         let mut step = RStep { toks: [NO_TOK; 2], ntok: 0, out: ROut::Go(RState::Main) };
         ref_main(c, idx, &mut step);
-        compare(&t, &r, &step, &[]);
-        // C16: whitespace in Main produces nothing
+        // C16: whitespace in Main produces nothing (checked before the full comparison: a failed
+        // assertion ends the path)
         if ref_is_ws(c) {
             assert!(r.is_ok() && t.out.len() == 0 && matches!(t.state, State::Main), "C16 whitespace is not skipped");
         }
+        compare(&t, &r, &step, &[]);
         kani::cover!(t.out.len() == 1);
         kani::cover!(r.is_err());
         kani::cover!(matches!(t.state, State::Pound(_)));
@@ -336,11 +337,15 @@ mod proofs {
                 }
             }
         };
-        compare(&t, &r, &step, &[]);
-        // C16: a comment swallows every character up to the line feed and emits nothing
+        // C16: a comment swallows every character up to the line feed (and only the line feed ends it)
         if which == 1 {
             assert!(r.is_ok() && t.out.len() == 0, "C16 comment content produced a token or an error");
+            assert!(
+                matches!(t.state, State::SingleLineComment) == (c != '\n'),
+                "C16 a comment must end exactly at the line feed"
+            );
         }
+        compare(&t, &r, &step, &[]);
         kani::cover!(r.is_ok());
         kani::cover!(which != 1 || matches!(t.state, State::Main));
         kani::cover!(which == 1 || r.is_err());
@@ -388,6 +393,9 @@ mod proofs {
             step.ntok = 1;
             ref_main(c, idx, &mut step);
         }
+        if ref_is_ws(c) {
+            assert!(r.is_ok() && t.out.len() == 1 && matches!(t.state, State::Main), "C16 whitespace after a colon");
+        }
         compare(&t, &r, &step, &[]);
         kani::cover!(t.out.len() == 2);
         kani::cover!(c == ':');
@@ -416,11 +424,11 @@ mod proofs {
             ref_flush_word(&b, s, e, &mut step);
             ref_main(c, idx, &mut step);
         }
-        compare(&t, &r, &step, &b);
-        // C16: whitespace and '/' flush exactly the pending token
+        // C16: whitespace flushes exactly the pending token
         if ref_is_ws(c) {
             assert!(r.is_ok() && t.out.len() == 1 && matches!(t.state, State::Main), "C16 whitespace after a word");
         }
+        compare(&t, &r, &step, &b);
         kani::cover!(t.out.len() == 2);
         kani::cover!(t.out.len() == 1 && matches!(t.out[0], Token::TerminalKw(_)));
         kani::cover!(t.out.len() == 1 && matches!(t.out[0], Token::Underscore(_)));
@@ -520,6 +528,9 @@ mod proofs {
             step.out = ROut::Go(RState::TerminalIdent(s, e + 1));
         } else if ref_flush_terminal(&b, s, e, idx, Some(c), &mut step) {
             expect_redispatch = true;
+        }
+        if ref_is_ws(c) && ref_reserved(&b[s + 1..e]).is_none() {
+            assert!(r.is_ok() && t.out.len() == 1, "C16 whitespace after a terminal name");
         }
         compare(&t, &r, &step, &b);
         unsafe {
